@@ -6,6 +6,7 @@ import (
 	"context"
 	"crypto/sha256"
 	"encoding/binary"
+	"errors"
 	"fmt"
 	"hash/adler32"
 	"math"
@@ -85,6 +86,8 @@ func genHasher(t *rapid.T) hasherSpec {
 	}
 }
 
+var errHandlerFails = errors.New("handler failed")
+
 var caseCounter atomic.Int64
 
 // genPayloads builds payloads with a per-case unique prefix (inside the first 24 bytes, so inside every read limit).
@@ -161,6 +164,7 @@ func TestConcurrentPresentations(t *testing.T) {
 			d.Timeout = 0
 		}
 
+		handlerFails := !viaPublisher && rapid.IntRange(0, 3).Draw(t, "handlerReturnsAnError") == 0
 		concurrentDup := false
 		for r := 0; r < rounds; r++ {
 			rprefix := fmt.Sprintf("%sr%d|", prefix, r)
@@ -228,6 +232,10 @@ func TestConcurrentPresentations(t *testing.T) {
 					mu.Lock()
 					passed[g] = true
 					mu.Unlock()
+					if handlerFails {
+						// the handler got the message and failed: still the one presentation of that key in this window
+						return nil, errHandlerFails
+					}
 					return []*message.Message{m}, nil
 				})
 			}
@@ -306,7 +314,9 @@ func TestConcurrentPresentations(t *testing.T) {
 			for k, gs := range classes {
 				n := 0
 				for _, g := range gs {
-					if results[g] != "" && results[g] != "handled" && results[g] != "dropped" {
+					if handlerFails && passed[g] && results[g] == "error: "+errHandlerFails.Error() {
+						// the handler's own error comes back unchanged
+					} else if results[g] != "" && results[g] != "handled" && results[g] != "dropped" {
 						t.Fatalf("violation: presentation of goroutine %d ended with %s", g, results[g])
 					}
 					if passed[g] {
